@@ -220,6 +220,10 @@ func c05Shapes(ai int, a c05Alias) []c05Shape {
 		out = append(out, c05Shape{fields: append(append([]c05Field(nil), base...), c05Field{l, "z"}), where: w0, alias: ai})
 		out = append(out, c05Shape{fields: append(append([]c05Field(nil), base...), c05Field{l, ""}), where: ref.Bl(true), alias: ai})
 	}
+	// a later field that is nothing but the name
+	out = append(out, c05Shape{fields: append(append([]c05Field(nil), base...), c05Field{ref.Name(a.name), "z"}), where: w0, alias: ai})
+	out = append(out, c05Shape{fields: append(append([]c05Field(nil), base...), c05Field{ref.Name(a.name), ""}), where: ref.Bl(true), alias: ai})
+	out = append(out, c05Shape{fields: []c05Field{{a.def, a.name}, {ref.Name(a.name), "y"}, {ref.Name("y"), "z"}}, where: ref.Bl(true), alias: ai})
 	// alias before key, value after
 	out = append(out, c05Shape{fields: []c05Field{{a.def, a.name}, {ref.Key(), ""}, {ref.Value(), ""}}, where: w0, alias: ai})
 	if a.ordable {
@@ -233,6 +237,11 @@ func c05Shapes(ai int, a c05Alias) []c05Shape {
 	}
 	if a.ordable {
 		out = append(out, c05Shape{fields: []c05Field{{a.def, a.name}, {ref.Key(), a.name}}, where: ref.Bl(true), order: []string{a.name + " desc"}, alias: ai})
+	}
+	// ... and a field behind the repeated name that uses it
+	for _, l := range a.later {
+		out = append(out, c05Shape{fields: []c05Field{{a.def, a.name}, {ref.Call("upper", ref.Key()), a.name}, {l, "z"}}, where: ref.Bl(true), alias: ai})
+		out = append(out, c05Shape{fields: []c05Field{{ref.Key(), ""}, {a.def, a.name}, {ref.Value(), a.name}, {l, "z"}}, where: w0, alias: ai})
 	}
 	// second alias defined through the first
 	if len(a.later) > 0 {
@@ -425,6 +434,11 @@ func c05Judge(c *c05Case) (fails []core.Failure, nontrivial bool, status, observ
 	}
 	status = "ok"
 	observed = al.Status() + strings.Join(al.Rows, ";")
+	if al.Panic != "" || ex.Panic != "" {
+		// an error value may come from either form; a panic is never a result
+		fails = append(fails, mk("aliased-vs-expanded", "panic", "rows or an error value", "aliased: "+al.Describe()+" ; expanded: "+ex.Describe()))
+		return fails, true, "", observed, evals
+	}
 	// (1) aliased == expanded
 	switch {
 	case al.Failed() && !ex.Failed():
@@ -442,7 +456,9 @@ func c05Judge(c *c05Case) (fails []core.Failure, nontrivial bool, status, observ
 	}
 	// (2) cache on == off
 	on, off := run(qa, 1), run(qa, 2)
-	if on.Status() != off.Status() || !drv.EqualRows(on.Rows, off.Rows) {
+	if on.Panic != "" || off.Panic != "" {
+		fails = append(fails, mk("cache-on-vs-off", "panic", "rows or an error value", "cache on: "+on.Describe()+" ; cache off: "+off.Describe()))
+	} else if on.Status() != off.Status() || !drv.EqualRows(on.Rows, off.Rows) {
 		if !(on.Failed() && off.Failed()) {
 			fails = append(fails, mk("cache-on-vs-off", "cache-visible:"+on.Status()+"/"+off.Status(), "cache off: "+off.Describe(), "cache on: "+on.Describe()))
 		}
